@@ -130,10 +130,39 @@ def memo_findings(fn_node: ast.AST) -> list:
                 if reads_cont(r.value, cont) or any(isinstance(x, ast.Name) and x.id in fed for x in value_nodes(r.value)):
                     return True
         return False
+    def foreign_holder(root):
+        """`root` is a local alias of a container kept on another object reached from self
+        (`rendered = getattr(self.project, "_x", None)` / `= self.project._x`): the holder's path, else None"""
+        for v in asg.get(root, []):
+            r = _attr_read(v)
+            if r and r[0].startswith("self.") and r[1].startswith("_"):
+                return r[0]
+        return None
+
+    def mentions_self(e, skip_prefix, seen=None, depth=0):
+        """the expression is computed with fields or methods of self (other than the path to the holder)"""
+        seen = seen if seen is not None else set()
+        for x in ast.walk(e):
+            if isinstance(x, ast.Attribute) and isinstance(x.value, ast.Name) and x.value.id == "self" and not f"self.{x.attr}".startswith(skip_prefix):
+                return True
+            if isinstance(x, ast.Name) and isinstance(x.ctx, ast.Load) and x.id in asg and x.id not in seen and depth < 6:
+                seen.add(x.id)
+                if any(mentions_self(v, skip_prefix, seen, depth + 1) for v in asg[x.id]):
+                    return True
+                if any(mentions_self(g, skip_prefix, seen, depth + 1) for g in _grown_from(x.id, fn_node)):
+                    return True
+        return False
     for cont, key, val, stmt in stores:
         if cont not in reads:
             continue
         if not answers_from(cont):
+            continue
+        root0 = cont.split(".")[0].split("[")[0]
+        holder = foreign_holder(root0) if root0 in asg else None
+        if holder is not None:
+            # kept on an object that other instances of this class share: the value may not depend on this instance unless the key does
+            if mentions_self(val, holder) and not any(mentions_self(e_, holder) or (isinstance(e_, ast.Name) and e_.id == "self") for e_ in _key_elements(key, asg)):
+                out.append((f"{holder}.<{cont}>", key, "self (the state of the object that computed the value)", stmt))
             continue
         # only containers that outlive the call: module globals / attributes, not locals built here
         root = cont.split(".")[0].split("[")[0]
@@ -217,7 +246,7 @@ def _grown_from(name: str, fn_node: ast.AST) -> list:
     out = []
     for n in ast.walk(fn_node):
         if isinstance(n, ast.Call) and isinstance(n.func, ast.Attribute) and isinstance(n.func.value, ast.Name) and n.func.value.id == name \
-                and n.func.attr in ("append", "add", "extend", "update", "insert", "setdefault"):
+                and (n.func.attr in ("append", "add", "extend", "update", "insert", "setdefault") or n.func.attr.startswith(("add", "set", "append", "put", "push"))):
             out += list(n.args)
         elif isinstance(n, ast.Assign) and any(isinstance(t, ast.Subscript) and isinstance(t.value, ast.Name) and t.value.id == name for t in n.targets):
             out.append(n.value)
